@@ -25,6 +25,12 @@ class Crate:
         for f in d['fns']:
             fn = Fn(self, f)
             self.fns[fn.path] = fn
+        self.dissolved = []
+        if self.name == 'yarel':
+            kp = os.path.join(os.path.dirname(os.path.abspath(__file__)), 'tables', 'known_fns.json')
+            if os.path.exists(kp):
+                with open(kp) as fh:
+                    self.dissolved = inline_new_helpers(self, set(json.load(fh)))
 
     # ---- types -------------------------------------------------------------------------------
     def ty(self, tid):
@@ -207,6 +213,198 @@ class Fn:
                     dom[n] = new
                     changed = True
         return dom
+
+
+# ---- inlining of helper functions that did not exist when the rules were written ---------------------------------
+# Rules are anchored at functions by name (return_impl, unwind_stack, try_statement ...). An extract-method refactoring moves part of
+# such a body into a new private helper; the property still holds but an intra-procedural rule no longer sees the moved statements.
+# rules/tables/known_fns.json lists the function paths of the tree the rules were written against. Any *other* non-closure function
+# of the crate that is called directly is spliced into its callers before any rule runs (and dropped as a unit of its own), so a rule
+# sees the same statements wherever the refactoring put them. On a tree without new functions this is the identity.
+
+import copy as _copy
+
+
+def _rm_place(pl, lo):
+    if not isinstance(pl, dict) or 'l' not in pl:
+        return pl
+    out = dict(pl)
+    out['l'] = pl['l'] + lo
+    if 'p' in pl:
+        out['p'] = [dict(e, i=e['i'] + lo) if isinstance(e, dict) and 'i' in e else e for e in pl['p']]
+    return out
+
+
+def _rm_operand(o, lo, po):
+    if not isinstance(o, dict):
+        return o
+    if 'c' in o:
+        return {'c': _rm_place(o['c'], lo)}
+    if 'm' in o:
+        return {'m': _rm_place(o['m'], lo)}
+    if 'k' in o and po and isinstance(o['k'], dict) and isinstance(o['k'].get('s'), str) and 'promoted[' in o['k']['s']:
+        k = dict(o['k'])
+        i = int(k['s'].split('promoted[')[1].split(']')[0])
+        k['s'] = k['s'].replace('promoted[%d]' % i, 'promoted[%d]' % (i + po))
+        return {'k': k}
+    return o
+
+
+def _rm_rvalue(r, lo, po):
+    out = dict(r)
+    for key in ('o', 'a', 'b'):
+        if key in r:
+            out[key] = _rm_operand(r[key], lo, po)
+    if 'ops' in r:
+        out['ops'] = [_rm_operand(x, lo, po) for x in r['ops']]
+    if isinstance(r.get('p'), dict):
+        out['p'] = _rm_place(r['p'], lo)
+    return out
+
+
+def _rm_term(t, lo, bo, po):
+    out = dict(t)
+    for key in ('to', 'uw', 'else'):
+        if isinstance(t.get(key), int):
+            out[key] = t[key] + bo
+    if 'cases' in t:
+        out['cases'] = [[v, b + bo] for v, b in t['cases']]
+    if 'd' in t:
+        out['d'] = _rm_operand(t['d'], lo, po)
+    if 'c' in t and isinstance(t['c'], dict):
+        out['c'] = _rm_operand(t['c'], lo, po)
+    if 'p' in t and isinstance(t['p'], dict):
+        out['p'] = _rm_place(t['p'], lo)
+    if 'args' in t:
+        out['args'] = [_rm_operand(a, lo, po) for a in t['args']]
+    if 'dst' in t:
+        out['dst'] = _rm_place(t['dst'], lo)
+    if 'f' in t and isinstance(t['f'], dict) and 'ind' in t['f']:
+        f2 = dict(t['f'])
+        f2['ind'] = _rm_operand(t['f']['ind'], lo, po)
+        out['f'] = f2
+    return out
+
+
+def _splice(raw, bi, g):
+    """replace the call terminator of block bi in raw (a function's JSON) by the body of g (a Fn)"""
+    call = raw['blocks'][bi]['t']
+    lo = len(raw['locals'])
+    bo = len(raw['blocks'])
+    po = len(raw.get('promoted', []))
+    raw['locals'] = raw['locals'] + [dict(x) for x in g.raw['locals']]
+    if g.raw.get('promoted'):
+        raw['promoted'] = list(raw.get('promoted', [])) + _copy.deepcopy(g.raw['promoted'])
+    cont = call.get('to')
+    sp = call.get('sp')
+    new_blocks = []
+    for b in g.raw['blocks']:
+        stmts = []
+        for s_ in b['s']:
+            s2 = dict(s_)
+            if 'd' in s_:
+                s2['d'] = _rm_place(s_['d'], lo)
+            if 'r' in s_:
+                s2['r'] = _rm_rvalue(s_['r'], lo, po)
+            stmts.append(s2)
+        t = b['t']
+        if t['t'] == 'return':
+            # hand the result to the call's destination and continue after the call
+            stmts.append({'d': call['dst'], 'r': {'rv': 'use', 'o': {'m': {'l': lo}}}, 'sp': sp})
+            t2 = {'t': 'goto', 'to': cont, 'sp': sp} if cont is not None else {'t': 'unreachable', 'sp': sp}
+        else:
+            t2 = _rm_term(t, lo, bo, po)
+        new_blocks.append({'s': stmts, 't': t2})
+    # argument passing, then jump to the callee's entry
+    entry = bo + len(new_blocks)
+    argst = [{'d': {'l': lo + 1 + i}, 'r': {'rv': 'use', 'o': a}, 'sp': sp} for i, a in enumerate(call.get('args', []))]
+    new_blocks.append({'s': argst, 't': {'t': 'goto', 'to': bo, 'sp': sp}})
+    raw['blocks'] = raw['blocks'] + new_blocks
+    raw['blocks'][bi] = {'s': raw['blocks'][bi]['s'], 't': {'t': 'goto', 'to': entry, 'sp': sp, 'inlined': g.path}}
+
+
+def inline_new_helpers(crate, known):
+    """splice every directly called function that is not in `known` into its callers; returns the paths that were dissolved"""
+    # only module-private functions: an extracted helper is private to the module of its caller; a new pub / pub(crate) function is
+    # an interface of its own (generated class getters, new natives, new API) and stays a unit
+    def module_private(f):
+        v = f.vis or ''
+        return v.startswith('Restricted(') and '::' in v.split('~', 1)[-1]
+    # a function that merely moved to another module keeps its `Type::name` (or `module::name`) tail and is not new
+    def tail(p0):
+        segs = [x for x in _re.sub(r'<[^<>]*>', '', _re.sub(r'<[^<>]*>', '', p0)).split('::') if x]
+        return '::'.join(segs[-2:])
+    known_tails = {tail(k) for k in known}
+    known = set(known) | {p_ for p_ in crate.fns if tail(p_) in known_tails}
+
+    def direct_call_sites(p0):
+        n = 0
+        for f in crate.fns.values():
+            for b in f.raw['blocks']:
+                t = b['t']
+                if t['t'] == 'call' and isinstance(t.get('f'), dict) and (t['f'].get('res') or t['f'].get('def')) == p0:
+                    n += 1
+        return n
+    # ... or crate-visible with exactly one call site: bookkeeping moved next to the data it touches (e.g. a new ObjFiber method called
+    # from the one Vm function it was cut out of). Generated accessors and new natives have no or several direct call sites.
+    new = {p_ for p_, f in crate.fns.items() if f.kind != 'Closure' and p_ not in known and
+           (module_private(f) or ((f.vis or '').startswith('Restricted(') and direct_call_sites(p_) == 1))}
+    # a recursive function is a unit of its own (and a fact the recursion rules must see), never a helper to dissolve
+    def direct_callees(f):
+        return {(b['t']['f'].get('res') or b['t']['f'].get('def')) for b in f.raw['blocks'] if b['t']['t'] == 'call' and isinstance(b['t'].get('f'), dict)}
+
+    def recursive(p0):
+        seen, stack = set(), list(direct_callees(crate.fns[p0]))
+        while stack:
+            q = stack.pop()
+            if q == p0:
+                return True
+            # only cycles that stay inside the set of new functions count: a helper cut out of a recursive-descent routine is on a cycle
+            # through the (known) routines it serves and is still just a helper
+            if q in seen or q not in crate.fns or q not in new:
+                continue
+            seen.add(q)
+            stack.extend(direct_callees(crate.fns[q]))
+        return False
+    new = {p_ for p_ in new if not recursive(p_)}
+    if not new:
+        return []
+    originals = {p_: crate.fns[p_] for p_ in new}
+    dissolved = {}
+    for path, f in list(crate.fns.items()):
+        raw = None
+        count = {}
+        progress = True
+        rounds = 0
+        while progress and rounds < 60:
+            progress = False
+            rounds += 1
+            blocks = (raw or f.raw)['blocks']
+            for bi, b in enumerate(blocks):
+                t = b['t']
+                if t['t'] != 'call':
+                    continue
+                cal = t['f'].get('res') or t['f'].get('def')
+                if cal not in new or cal == path or count.get(cal, 0) >= 6:
+                    continue
+                if raw is None:
+                    raw = dict(f.raw)
+                    raw['blocks'] = list(f.raw['blocks'])
+                    raw['locals'] = list(f.raw['locals'])
+                _splice(raw, bi, originals[cal])
+                count[cal] = count.get(cal, 0) + 1
+                dissolved.setdefault(cal, path)
+                progress = True
+                break
+        if raw is not None:
+            crate.fns[path] = Fn(crate, raw)
+    for cal, first_caller in dissolved.items():
+        # the helper lives on inside its callers; its closures belong to the first of them
+        crate.fns.pop(cal, None)
+        for g in crate.fns.values():
+            if g.kind == 'Closure' and g.parent == cal:
+                g.parent = first_caller
+    return sorted(dissolved)
 
 
 def callee_name(t):
@@ -795,6 +993,9 @@ def origins(fn, through_calls='wrappers', extra_wrappers=()):
                     new = operand_paths(r['o'])
                 elif rv in ('ref', 'rawptr'):
                     new = place_paths(r['p'])
+                    if (r['p'].get('p') or [None])[-1] == '*':
+                        # a reborrow `&mut *x` denotes what x denotes (otherwise `(*reborrow).f` reads as `(**x).f`)
+                        new = {q[:-1] if q[-1:] == ('*',) and len(q) > 1 else q for q in new}
                 elif rv == 'cast':
                     new = operand_paths(r['o'])
                 elif rv == 'agg':
